@@ -6,6 +6,8 @@ import (
 	"crypto/sha256"
 	"fmt"
 	"math/rand"
+	"sync"
+	"sync/atomic"
 	"testing"
 	"testing/synctest"
 	"time"
@@ -13,6 +15,8 @@ import (
 	"github.com/godaddy/asherah/go/appencryption"
 
 	"verif/harness/ev"
+	"verif/harness/probe"
+	"verif/harness/sched"
 	"verif/harness/world"
 )
 
@@ -176,7 +180,115 @@ func TestC20(t *testing.T) {
 			}
 		}
 	}
+	concurrentRefresh(t, r)
 	r.Finish(t)
+}
+
+// concurrentRefresh: N sessions of one factory all find the shared system key stale at the same moment (every
+// goroutine is held at the lock-free point right after the read-locked lookup until all have arrived) and are
+// then released together. The system key may be re-read and unwrapped once, not N times.
+func concurrentRefresh(t *testing.T, r *ev.Run) {
+	for _, n := range []int{2, 4, 8} {
+		n := n
+		name := fmt.Sprintf("concurrent-refresh/sessions=%d", n)
+		journal("c20 " + name)
+		func() {
+			defer func() {
+				if pv := recover(); pv != nil {
+					r.Violation("c20-panic", fmt.Sprintf("scenario %s: %v", name, pv), name)
+				}
+			}()
+			synctest.Test(t, func(t *testing.T) {
+				R := 10 * time.Minute
+				cfg := world.Default(1000*time.Hour, R, time.Minute)
+				w := world.New("memguard")
+				defer w.Close()
+				time.Sleep(19 * time.Second)
+				ctx := context.Background()
+				pf := w.Factory(world.Default(1000*time.Hour, time.Hour, time.Minute), "svc", "prod")
+				type pr struct {
+					d  *appencryption.DataRowRecord
+					pl []byte
+				}
+				recs := make([]pr, n)
+				for i := range recs {
+					ps, _ := pf.GetSession(fmt.Sprintf("part%d", i))
+					pl := []byte(fmt.Sprintf("payload %d", i))
+					d, err := ps.Encrypt(ctx, pl)
+					if err != nil {
+						panic(err)
+					}
+					recs[i] = pr{d, pl}
+					ps.Close()
+				}
+				pf.Close()
+				f := w.Factory(cfg, "svc", "prod")
+				sess := make([]*appencryption.Session, n)
+				for i := range sess {
+					sess[i], _ = f.GetSession(fmt.Sprintf("part%d", i))
+					if _, err := sess[i].Decrypt(ctx, *world.CopyDRR(recs[i].d)); err != nil {
+						panic(err)
+					}
+				}
+				time.Sleep(R + time.Nanosecond) // every cached key is stale now
+				ctrl := sched.NewController()
+				calls := map[string]int{}
+				var mu sync.Mutex
+				probe.SetHookSink(func(point string, arg any) {
+					l := sched.Label()
+					if l == "" {
+						return
+					}
+					mu.Lock()
+					if point == "kc.getorload.enter" {
+						calls[l]++
+					}
+					nested := calls[l] == 2
+					mu.Unlock()
+					if point == "kc.getorload.after_runlock" && nested {
+						ctrl.Park(point) // the system-key lookup saw a stale key and is about to take the write lock
+					}
+				})
+				defer probe.SetHookSink(nil)
+				kms0, sk0 := w.KMS.Count("decrypt"), w.MS.Count("load:_SK_svc_prod")
+				var wg sync.WaitGroup
+				var failed atomic.Int32
+				for i := range sess {
+					i := i
+					wg.Add(1)
+					go func() {
+						defer wg.Done()
+						sched.SetLabel(fmt.Sprintf("g%d", i))
+						defer sched.ClearLabel()
+						out, err := sess[i].Decrypt(ctx, *world.CopyDRR(recs[i].d))
+						if err != nil || !bytes.Equal(out, recs[i].pl) {
+							failed.Add(1)
+						}
+					}()
+				}
+				synctest.Wait()
+				parked := len(ctrl.Parked())
+				ctrl.ReleaseAll()
+				wg.Wait()
+				probe.SetHookSink(nil)
+				unwraps := w.KMS.Count("decrypt") - kms0
+				skReads := w.MS.Count("load:_SK_svc_prod") - sk0
+				r.Eval(1)
+				r.Distinct(name)
+				r.Count("concurrent_refresh_goroutines_held_at_stale_lookup", int64(parked))
+				if failed.Load() > 0 {
+					r.Violation("c20-op-failed", fmt.Sprintf("scenario %s: %d decrypt(s) failed", name, failed.Load()), name)
+				}
+				if parked >= 2 && (unwraps > 1 || skReads > 1) {
+					r.Violation("c20-kms-unwrap-twice-in-interval", fmt.Sprintf("scenario %s: %d sessions found the cached system key stale at the same moment; the KMS unwrapped it %d times and its record was read %d times (want once per factory per interval)", name, parked, unwraps, skReads), name)
+				}
+				for _, s := range sess {
+					s.Close()
+				}
+				f.Close()
+			})
+		}()
+	}
 }
 
 func runC20(t *testing.T, r *ev.Run, name string, cfg world.Cfg, nparts int, seed int64) {
